@@ -115,6 +115,7 @@ class Interp:
         self.callstack = []
         self.loop_states = {}
         self.memo = {}
+        self.max_recursion = 0
         self._block_memo = {}
         self._bound_cache = {}
 
@@ -1144,7 +1145,7 @@ class Interp:
             return [(OK, self.binop("==" if f["name"] == "eq" else "!=", l, r2), st)]
         if f is not None and f.get("x", "").startswith("m:Derive:Clone"):
             return [(OK, self.deref_val(st, args[0]), st)]
-        if f is not None and "body" in f and st.depth < self.max_depth and callee not in self.callstack:
+        if f is not None and "body" in f and st.depth < self.max_depth and self.callstack.count(callee) <= self.max_recursion:
             return self.inline(f, args, st)
         self.unknown_calls[callee] = self.unknown_calls.get(callee, 0) + 1
         return [(OK, unk("call:" + callee), st)]
@@ -1378,6 +1379,14 @@ class Interp:
             if v[0] == "enum" and v[1] == ERRV:
                 return self.then(self.apply(args[1], [v[2][0]], st, n), lambda r, s: [(OK, ("enum", ERRV, (r,)), s)])
             return [(OK, ("enum", OKV, (unk("map_err"),)), st), (OK, ("enum", ERRV, (unk("map_err"),)), st)]
+        if callee == "alloc::boxed::Box::<T>::new_uninit":
+            return [(OK, ("abs", "uninit-box"), st)]
+        if callee == "alloc::intrinsics::write_box_via_move":
+            return [(OK, args[1], st)]
+        if callee == "alloc::boxed::box_assume_init_into_vec_unsafe" or callee == "alloc::slice::<impl [T]>::into_vec":
+            v = self.deref_val(st, args[0])
+            if v[0] == "tuple":
+                return [(OK, ("abs", "svec", v[1]), st)]
         if callee == "core::option::Option::<T>::and_then":
             v = self.deref_val(st, args[0])
             if v[0] == "enum" and v[1] == NONE:
